@@ -1368,6 +1368,9 @@ package xpath
 //@   requires[swf@C17] swf(p.r)
 //@   ensures[swf@C17] swf(p.r)
 //@   loop 0 invariant[swf@C17] swf(p.r)
+//@   ensures[progress@C06] pmeas(p.r) < old(pmeas(p.r))
+//@   loop * decreases pmeas(p.r)
+//@   loop * invariant[progress@C06] pmeas(p.r) < old(pmeas(p.r))
 //@ func (*parser).parseAndExpr
 //@   props C06 C10 C17 C15
 //@   requires[depth@C06] p != nil && 0 <= p.d && p.d <= 200
@@ -1384,6 +1387,9 @@ package xpath
 //@   requires[swf@C17] swf(p.r)
 //@   ensures[swf@C17] swf(p.r)
 //@   loop 0 invariant[swf@C17] swf(p.r)
+//@   ensures[progress@C06] pmeas(p.r) < old(pmeas(p.r))
+//@   loop * decreases pmeas(p.r)
+//@   loop * invariant[progress@C06] pmeas(p.r) < old(pmeas(p.r))
 //@ func (*parser).parseEqualityExpr
 //@   props C06 C10 C17 C15
 //@   requires[depth@C06] p != nil && 0 <= p.d && p.d <= 200
@@ -1400,6 +1406,9 @@ package xpath
 //@   requires[swf@C17] swf(p.r)
 //@   ensures[swf@C17] swf(p.r)
 //@   loop 0 invariant[swf@C17] swf(p.r)
+//@   ensures[progress@C06] pmeas(p.r) < old(pmeas(p.r))
+//@   loop * decreases pmeas(p.r)
+//@   loop * invariant[progress@C06] pmeas(p.r) < old(pmeas(p.r))
 //@ func (*parser).parseRelationalExpr
 //@   props C06 C10 C17 C15
 //@   requires[depth@C06] p != nil && 0 <= p.d && p.d <= 200
@@ -1416,6 +1425,9 @@ package xpath
 //@   requires[swf@C17] swf(p.r)
 //@   ensures[swf@C17] swf(p.r)
 //@   loop 0 invariant[swf@C17] swf(p.r)
+//@   ensures[progress@C06] pmeas(p.r) < old(pmeas(p.r))
+//@   loop * decreases pmeas(p.r)
+//@   loop * invariant[progress@C06] pmeas(p.r) < old(pmeas(p.r))
 //@ func (*parser).parseAdditiveExpr
 //@   props C06 C10 C17 C15
 //@   requires[depth@C06] p != nil && 0 <= p.d && p.d <= 200
@@ -1432,6 +1444,9 @@ package xpath
 //@   requires[swf@C17] swf(p.r)
 //@   ensures[swf@C17] swf(p.r)
 //@   loop 0 invariant[swf@C17] swf(p.r)
+//@   ensures[progress@C06] pmeas(p.r) < old(pmeas(p.r))
+//@   loop * decreases pmeas(p.r)
+//@   loop * invariant[progress@C06] pmeas(p.r) < old(pmeas(p.r))
 //@ func (*parser).parseMultiplicativeExpr
 //@   props C06 C10 C17 C15
 //@   requires[depth@C06] p != nil && 0 <= p.d && p.d <= 200
@@ -1448,6 +1463,9 @@ package xpath
 //@   requires[swf@C17] swf(p.r)
 //@   ensures[swf@C17] swf(p.r)
 //@   loop 0 invariant[swf@C17] swf(p.r)
+//@   ensures[progress@C06] pmeas(p.r) < old(pmeas(p.r))
+//@   loop * decreases pmeas(p.r)
+//@   loop * invariant[progress@C06] pmeas(p.r) < old(pmeas(p.r))
 //@ func (*parser).parseUnaryExpr
 //@   props C06 C10 C17 C15 C08
 //@   ensures[negation@C08] minus ==> is(result, *operatorNode) && as(result, *operatorNode).Op == "*" && is(as(result, *operatorNode).Right, *operandNode) && as(as(result, *operatorNode).Right, *operandNode).Val == box(float(0 - 1))
@@ -1465,6 +1483,9 @@ package xpath
 //@   ensures[swf@C17] swf(p.r)
 //@   loop 0 invariant[swf@C17] swf(p.r)
 //@   loop 0 invariant[nonempty@C17] old(p.r.typ) == itemMinus || p.r.typ == old(p.r.typ)
+//@   ensures[progress@C06] pmeas(p.r) < old(pmeas(p.r))
+//@   loop * decreases pmeas(p.r)
+//@   loop * invariant[progress@C06] pmeas(p.r) <= old(pmeas(p.r))
 //@ func (*parser).parseUnionExpr
 //@   props C06 C10 C17 C15
 //@   requires[depth@C06] p != nil && 0 <= p.d && p.d <= 200
@@ -1481,6 +1502,9 @@ package xpath
 //@   requires[swf@C17] swf(p.r)
 //@   ensures[swf@C17] swf(p.r)
 //@   loop 0 invariant[swf@C17] swf(p.r)
+//@   ensures[progress@C06] pmeas(p.r) < old(pmeas(p.r))
+//@   loop * decreases pmeas(p.r)
+//@   loop * invariant[progress@C06] pmeas(p.r) < old(pmeas(p.r))
 //@ func (*parser).parseSequence
 //@   props C06 C10 C17 C15
 //@   requires[depth@C06] p != nil && 0 <= p.d && p.d <= 200
@@ -1497,6 +1521,9 @@ package xpath
 //@   requires[swf@C17] swf(p.r)
 //@   ensures[swf@C17] swf(p.r)
 //@   loop 0 invariant[swf@C17] swf(p.r)
+//@   ensures[progress@C06] pmeas(p.r) < old(pmeas(p.r))
+//@   loop * decreases pmeas(p.r)
+//@   loop * invariant[progress@C06] pmeas(p.r) < old(pmeas(p.r))
 //@ func (*parser).parsePrimaryExpr
 //@   props C06 C10 C17 C15
 //@   requires[depth@C06] p != nil && 0 <= p.d && p.d <= 200
@@ -1508,6 +1535,8 @@ package xpath
 //@   ensures[tier@C10] tPath(result)
 //@   requires[swf@C17] swf(p.r)
 //@   ensures[swf@C17] swf(p.r)
+//@   ensures[progress@C06] pmeas(p.r) < old(pmeas(p.r))
+//@   loop * decreases pmeas(p.r)
 
 // ---------------------------------------------------------------------------
 // The regexp cache (cache.go). The cache is shared between goroutines: its map
@@ -1812,6 +1841,8 @@ package xpath
 //@   ensures[nonempty@C17] old(p.r.typ) != itemEOF
 //@   requires[swf@C17] swf(p.r)
 //@   ensures[swf@C17] swf(p.r)
+//@   ensures[progress@C06] pmeas(p.r) < old(pmeas(p.r))
+//@   loop * decreases pmeas(p.r)
 //@ func (*parser).parsePathExpr
 //@   props C06 C10 C17
 //@   requires[depth@C06] p != nil && 0 <= p.d && p.d <= 200
@@ -1824,6 +1855,8 @@ package xpath
 //@   ensures[nonempty@C17] old(p.r.typ) != itemEOF
 //@   requires[swf@C17] swf(p.r)
 //@   ensures[swf@C17] swf(p.r)
+//@   ensures[progress@C06] pmeas(p.r) < old(pmeas(p.r))
+//@   loop * decreases pmeas(p.r)
 //@ func (*parser).parseFilterExpr
 //@   props C06 C10 C17
 //@   requires[depth@C06] p != nil && 0 <= p.d && p.d <= 200
@@ -1835,6 +1868,9 @@ package xpath
 //@   ensures[tier@C10] tPath(result)
 //@   requires[swf@C17] swf(p.r)
 //@   ensures[swf@C17] swf(p.r)
+//@   ensures[progress@C06] pmeas(p.r) < old(pmeas(p.r))
+//@   loop * decreases pmeas(p.r)
+//@   loop * invariant[progress@C06] pmeas(p.r) < old(pmeas(p.r))
 //@ func (*parser).parseMethod
 //@   props C06 C10 C17
 //@   requires[depth@C06] p != nil && 0 <= p.d && p.d <= 200
@@ -1851,6 +1887,9 @@ package xpath
 //@   requires[swf@C17] swf(p.r)
 //@   ensures[swf@C17] swf(p.r)
 //@   loop 0 invariant[swf@C17] swf(p.r)
+//@   ensures[progress@C06] pmeas(p.r) < old(pmeas(p.r))
+//@   loop * decreases pmeas(p.r)
+//@   loop * invariant[progress@C06] pmeas(p.r) < old(pmeas(p.r))
 //@ func (*parser).parsePredicate
 //@   props C06 C10 C17
 //@   requires[depth@C06] p != nil && 0 <= p.d && p.d <= 200
@@ -1862,6 +1901,8 @@ package xpath
 //@   ensures[open-bracket@C17] old(p.r.typ) == itemLBracket
 //@   requires[swf@C17] swf(p.r)
 //@   ensures[swf@C17] swf(p.r)
+//@   ensures[progress@C06] pmeas(p.r) < old(pmeas(p.r))
+//@   loop * decreases pmeas(p.r)
 //@ func (*parser).parseLocationPath
 //@   props C06 C10 C17
 //@   requires[depth@C06] p != nil && 0 <= p.d && p.d <= 200
@@ -1874,6 +1915,8 @@ package xpath
 //@   ensures[nonempty@C17] old(p.r.typ) != itemEOF
 //@   requires[swf@C17] swf(p.r)
 //@   ensures[swf@C17] swf(p.r)
+//@   ensures[progress@C06] pmeas(p.r) < old(pmeas(p.r))
+//@   loop * decreases pmeas(p.r)
 //@ func (*parser).parseRelativeLocationPath
 //@   props C06 C10 C17
 //@   requires[depth@C06] p != nil && 0 <= p.d && p.d <= 200
@@ -1889,6 +1932,9 @@ package xpath
 //@   requires[swf@C17] swf(p.r)
 //@   ensures[swf@C17] swf(p.r)
 //@   loop 0 invariant[swf@C17] swf(p.r)
+//@   ensures[progress@C06] pmeas(p.r) < old(pmeas(p.r))
+//@   loop * decreases pmeas(p.r)
+//@   loop * invariant[progress@C06] pmeas(p.r) <= old(pmeas(p.r))
 //@ func (*parser).parseStep
 //@   props C06 C10 C17
 //@   requires[depth@C06] p != nil && 0 <= p.d && p.d <= 200
@@ -1910,6 +1956,9 @@ package xpath
 //@   requires[swf@C17] swf(p.r)
 //@   ensures[swf@C17] swf(p.r)
 //@   loop 0 invariant[swf@C17] swf(p.r)
+//@   ensures[progress@C06] pmeas(p.r) < old(pmeas(p.r))
+//@   loop * decreases pmeas(p.r)
+//@   loop * invariant[progress@C06] pmeas(p.r) < old(pmeas(p.r))
 //@ func (*parser).parseNodeTest
 //@   props C06 C10 C17
 //@   requires[depth@C06] p != nil && 0 <= p.d && p.d <= 200
@@ -1924,6 +1973,8 @@ package xpath
 //@   ensures[nonempty@C17] old(p.r.typ) != itemEOF
 //@   requires[swf@C17] swf(p.r)
 //@   ensures[swf@C17] swf(p.r)
+//@   ensures[progress@C06] pmeas(p.r) < old(pmeas(p.r))
+//@   loop * decreases pmeas(p.r)
 //@ func (*parser).next
 //@   props C06
 //@   requires p != nil
@@ -1931,6 +1982,7 @@ package xpath
 //@   ensures[swf@C17] swf(p.r)
 //@   maypanic
 //@   modifies heap(F:scanner.*)
+//@   ensures[progress@C06] pmeas(p.r) <= old(pmeas(p.r)) && (old(p.r.typ) != itemEOF ==> pmeas(p.r) < old(pmeas(p.r)))
 //@ func (*parser).skipItem
 //@   props C06
 //@   requires p != nil
@@ -1939,6 +1991,7 @@ package xpath
 //@   maypanic
 //@   modifies heap(F:scanner.*)
 //@   ensures[token@C17] old(p.r.typ) == typ
+//@   ensures[progress@C06] pmeas(p.r) <= old(pmeas(p.r)) && (old(p.r.typ) != itemEOF ==> pmeas(p.r) < old(pmeas(p.r)))
 //@ func (*scanner).nextChar
 //@   props C06 C17
 //@   requires[swf@C17] 0 <= s.pos && s.pos <= len(s.text)
@@ -1947,6 +2000,7 @@ package xpath
 //@   ensures[swf@C17] swf(s) && old(s.pos) <= s.pos
 //@   ensures[advance@C17] (result ==> s.pos == old(s.pos) + s.currSize) && (!result ==> s.pos == old(s.pos) && s.currSize == 1)
 //@   ensures[end@C10] !result ==> s.curr == 0
+//@   ensures[progress@C06] smeas(s) <= old(smeas(s)) && (old(s.curr) != 0 ==> smeas(s) < old(smeas(s)))
 //@ func (*scanner).nextItem
 //@   props C06 C17
 //@   requires[swf@C17] swf(s)
@@ -1954,6 +2008,7 @@ package xpath
 //@   modifies heap(F:scanner.*)
 //@   ensures[swf@C17] swf(s)
 //@   ensures[qualified-name@C17] result && s.typ == itemName && s.prefix != "" ==> s.name != ""
+//@   ensures[progress@C06] smeas(s) <= old(smeas(s)) && (result ==> smeas(s) < old(smeas(s))) && result == (s.typ != itemEOF)
 //@ func (*scanner).skipSpace
 //@   props C06 C17 C10
 //@   ensures[xpath-whitespace-skipped@C10] s.curr != ' ' && s.curr != '\t' && s.curr != '\n' && s.curr != '\r'
@@ -1962,6 +2017,9 @@ package xpath
 //@   modifies s.curr, s.currSize, s.pos
 //@   ensures[swf@C17] swf(s)
 //@   loop 0 invariant[swf@C17] swf(s)
+//@   ensures[progress@C06] smeas(s) <= old(smeas(s))
+//@   loop * decreases smeas(s)
+//@   loop * invariant[progress@C06] smeas(s) <= old(smeas(s))
 //@ func (*scanner).scanFraction
 //@   props C06 C17 C08
 //@   ensures[lexeme-value@C08] sameF(result, parsefloat_val(s.text[i:i+c])) && i == old(s.pos) - 2
@@ -1970,6 +2028,9 @@ package xpath
 //@   modifies s.curr, s.currSize, s.pos
 //@   ensures[swf@C17] swf(s)
 //@   loop 0 invariant[swf@C17] swf(s)
+//@   ensures[progress@C06] smeas(s) <= old(smeas(s))
+//@   loop * decreases smeas(s)
+//@   loop * invariant[progress@C06] smeas(s) <= old(smeas(s))
 //@ func (*scanner).scanNumber
 //@   props C06 C17 C08
 //@   ensures[lexeme-value@C08] sameF(result, parsefloat_val(s.text[i:i+c])) && i == old(s.pos) - 1
@@ -1979,6 +2040,9 @@ package xpath
 //@   ensures[swf@C17] swf(s)
 //@   loop 0 invariant[swf@C17] swf(s)
 //@   loop 1 invariant[swf@C17] swf(s)
+//@   ensures[progress@C06] smeas(s) <= old(smeas(s))
+//@   loop * decreases smeas(s)
+//@   loop * invariant[progress@C06] smeas(s) <= old(smeas(s))
 //@ func (*scanner).scanString
 //@   props C06 C17
 //@   requires[swf@C17] swf(s)
@@ -1986,6 +2050,9 @@ package xpath
 //@   modifies s.curr, s.currSize, s.pos
 //@   ensures[swf@C17] swf(s)
 //@   loop 0 invariant[swf@C17] swf(s)
+//@   ensures[progress@C06] smeas(s) <= old(smeas(s))
+//@   loop * decreases len(s.text) - s.pos
+//@   loop * invariant[progress@C06] smeas(s) <= old(smeas(s))
 //@ func (*scanner).scanName
 //@   props C06 C17
 //@   requires[swf@C17] swf(s)
@@ -1995,6 +2062,9 @@ package xpath
 //@   ensures[nonempty-name@C17] isName(old(s.curr)) ==> result != ""
 //@   loop 0 invariant[swf@C17] swf(s) && 0 <= c && c <= s.pos
 //@   loop 0 invariant[progress@C17] c >= 1 || s.curr == old(s.curr)
+//@   ensures[progress@C06] smeas(s) <= old(smeas(s))
+//@   loop * decreases len(s.text) - s.pos
+//@   loop * invariant[progress@C06] smeas(s) <= old(smeas(s))
 //@ func checkItem
 //@   props C06
 //@   maypanic
@@ -2066,6 +2136,13 @@ package xpath
 //@   pure
 //@ func isDigit
 //@   pure
+//@   props C15 C06
+//@   ensures[nul-is-no-digit@C06] r == 0 ==> !result
+// Termination of the compile phase (C06: no hang). smeas: the characters the scanner has not consumed
+// yet (plus one for a pending look-ahead character); pmeas: the same plus one for a pending token.
+// Every scanner loop decreases smeas, every parser loop decreases pmeas.
+//@ define smeas(s) = (len(s.text) - s.pos) + ite(s.curr != 0, 1, 0)
+//@ define pmeas(s) = ite(s.typ == itemEOF, 0, smeas(s) + 1)
 //@ define swf(s) = 0 <= s.pos && s.pos <= len(s.text) && 1 <= s.currSize && s.currSize <= 4 && s.currSize <= s.pos + 1
 
 // ---------------------------------------------------------------------------
